@@ -257,11 +257,11 @@ def run_packet(case):
 
 def subchecks():
     return [
-        Sub("hold", run_hold, strategy=st_hold, examples=(3000, 150000),
+        Sub("hold", run_hold, strategy=st_hold, examples=(3000, 60000),
             rule="hold rule on the source endpoint under schedules with long early stalls"),
-        Sub("progress", run_progress, strategy=st_progress, examples=(2000, 80000),
+        Sub("progress", run_progress, strategy=st_progress, examples=(2000, 40000),
             rule="bounded progress in a cooperative phase entered from the state a generated prefix reached"),
-        Sub("packet", run_packet, strategy=st_packet, examples=(800, 30000),
+        Sub("packet", run_packet, strategy=st_packet, examples=(800, 16000),
             rule="packet elements: hold rule (final-word junk bytes masked) and bounded progress / no starvation under endless back-to-back packets"),
         Sub("exhaustive-hold", run_hold, enum=enum_exh, exhaustive=True, tiers=("thorough",),
             rule="hold rule for ALL producer x consumer schedules of length 8, 16 element configurations"),
